@@ -188,6 +188,13 @@ impl Endpoint {
                 for &version in &self.config.supported_versions {
                     buf.write(version);
                 }
+                // The sender's address has proved nothing: like any other answer to it, this one
+                // stays within three times what was received
+                if buf.len() > 3 * datagram_len {
+                    debug!("not answering a {datagram_len} byte packet with unsupported version");
+                    buf.clear();
+                    return None;
+                }
                 return Some(DatagramEvent::Response(Transmit {
                     destination: remote,
                     ecn: None,
